@@ -435,9 +435,7 @@ def run(ctx, drv):
         obj = json.load(open(f))
         obj = obj.get("replay", obj)
         ctx.count("corpus_replayed")
-        if not replay(ctx, obj):
-            ctx.violation({"site": "corpus", "file": os.path.basename(f)}, obj,
-                          "corpus case fails again: " + os.path.basename(f))
+        check_case(ctx, drv, obj["case"])
     ncases = 2500 if ctx.tier == "quick" else 80000
     skipped = 0
     done = 0
